@@ -281,8 +281,21 @@ func (e *Engine) VerifyFunction(fn *ssa.Function, ct *Contract, timeoutMs, par i
 		x.frameOn = true
 	}
 	x.C.Cover(unit+"#cover.requires", e.posOf(fn), True)
+	if ct != nil {
+		for _, ac := range ct.AtCalls {
+			ac.Hits = 0
+		}
+	}
 	exit, results, fr := x.run(fn, s, args, bindings, ct, false)
 	_ = fr
+	if ct != nil {
+		for k, ac := range ct.AtCalls {
+			if ac.Hits == 0 {
+				x.C.Oblige(fmt.Sprintf("%s#atcall%d.unbound", unit, k), "atcall", fmt.Sprintf("%s:%d", filepath.Base(ac.File), ac.Line),
+					"the function calls "+ac.Callee+" (structural anchor of the region postcondition)", True, False)
+			}
+		}
+	}
 	if exit != nil {
 		x.C.Cover(unit+"#cover.exit", e.posOf(fn), exit.Reach)
 		// every return site must be reachable under the precondition (vacuity guard:
